@@ -24,6 +24,12 @@ int os_unmapped_ok;
 unsigned char os_written[64];
 unsigned os_written_n;
 int os_fopen_live, os_fclose_ok, os_stream_err;
+/* the output file as an object with previous contents: length before the call
+ * (arbitrary in the model, OS_PREV_NATIVE bytes in the replay), length and
+ * stream position now.  fopen's mode decides what survives: "w" truncates,
+ * "a" keeps everything and writes at the end, "r+" keeps everything and
+ * overwrites from position 0. */
+unsigned os_file_prev_len, os_file_len, os_file_pos;
 unsigned os_anon_len, os_gen;
 unsigned os_probe_q; unsigned char os_probe_ref; int os_probe_ref_set;
 #ifdef VF_CBMC
@@ -51,6 +57,10 @@ void os_schedule(int in_base) {
 #ifdef VF_CBMC
   os_probe_q = nondet_uint();
   __CPROVER_assume(os_probe_q < OS_SHIFT);
+  os_file_prev_len = nondet_uint();
+  __CPROVER_assume(os_file_prev_len <= OS_PREV_NATIVE);
+#else
+  os_file_prev_len = OS_PREV_NATIVE;
 #endif
 }
 
@@ -220,11 +230,14 @@ int vf_close(int fd) { (void)fd; if (os_fails(OS_CLOSE)) return -1; return 0; }
 
 static FILE *os_fake_file;
 FILE *vf_fopen(const char *path, const char *mode) {
-  (void)path; (void)mode;
+  (void)path;
   if (os_fails(OS_FOPEN)) return NULL;
   os_fake_file = malloc(sizeof(int));
   __CPROVER_assume(os_fake_file != NULL);
   os_fopen_live = 1; os_written_n = 0; os_stream_err = 0;
+  if (mode[0] == 'w') { os_file_len = 0; os_file_pos = 0; }
+  else if (mode[0] == 'a') { os_file_len = os_file_prev_len; os_file_pos = os_file_prev_len; }
+  else { os_file_len = os_file_prev_len; os_file_pos = 0; }
   return os_fake_file;
 }
 size_t vf_fwrite(const void *ptr, size_t size, size_t n, FILE *f) {
@@ -233,8 +246,10 @@ size_t vf_fwrite(const void *ptr, size_t size, size_t n, FILE *f) {
   if (os_fails(OS_FWRITE)) { got = os_short_write < want ? os_short_write : (want ? want - 1 : 0); os_stream_err = 1; }
   const unsigned char *s = ptr;
   for (unsigned i = 0; i < 64; i++)
-    if (i < got) os_written[os_written_n + i < 64 ? os_written_n + i : 63] = s[i];
+    if (i < got) os_written[os_file_pos + i < 64 ? os_file_pos + i : 63] = s[i];
   os_written_n += (unsigned)got;
+  os_file_pos += (unsigned)got;
+  if (os_file_pos > os_file_len) os_file_len = os_file_pos;
   return size ? got / size : 0;
 }
 int vf_fclose(FILE *f) {
